@@ -95,6 +95,11 @@ type chanSpec struct {
 	ID   int64 `json:"id"`
 	Hash int64 `json:"hash"`
 	S0   int   `json:"s0"`
+	// Late: the channel exists on the server but is NOT in the client's initial
+	// storage / access-hash store; the client first sees it through a pushed
+	// channel update or a channel update in a difference's other_updates (the
+	// accompanying chats carry its access hash).
+	Late bool `json:"late,omitempty"`
 }
 
 type planOp struct {
@@ -149,6 +154,7 @@ func unknownUserHash(id int64) int64 { return id*3 + 1 }
 type genOpts struct {
 	maxEvents int
 	natural   bool
+	late      bool // allow channels that are first seen during the run
 }
 
 func genScenario(idx int, r *rand.Rand, o genOpts) *scenario {
@@ -161,6 +167,12 @@ func genScenario(idx int, r *rand.Rand, o genOpts) *scenario {
 	for i := 0; i < nch; i++ {
 		id := int64(5001 + i)
 		sc.Chans = append(sc.Chans, chanSpec{ID: id, Hash: id*2 + 1, S0: pick(0, 1, 12, 300)})
+	}
+	nlate := 0
+	if o.late && r.IntN(2) == 0 {
+		nlate = 1
+		sc.Chans = append(sc.Chans, chanSpec{ID: 5101, Hash: 5101*2 + 1, S0: pick(0, 3, 40), Late: true})
+		nch++
 	}
 	lossPct := pick(0, 20, 20, 60, 60, 100)
 	dupPct := pick(0, 0, 15, 30)
@@ -188,7 +200,10 @@ func genScenario(idx int, r *rand.Rand, o genOpts) *scenario {
 	sc.Natural = o.natural && r.IntN(20) == 0
 	sc.Class = fmt.Sprintf("loss%d/dup%d/win%d/nonmsg%d/seq%d/L%d/chL%d/chmode%d/tl%v.%v/err%d/unk%d/ch%d",
 		lossPct, dupPct, window, nonMsgPct, seqPct, sc.SliceL, sc.ChSliceL, sc.ChanMode,
-		sc.TooLongCommon > 0, sc.TooLongChan > 0, sc.ErrPct, unknownPct, nch)
+		sc.TooLongCommon > 0, sc.TooLongChan > 0, sc.ErrPct, unknownPct, nch-nlate)
+	if nlate > 0 {
+		sc.Class += "/late1"
+	}
 
 	nev := 4 + r.IntN(o.maxEvents-3)
 	uid := 1
